@@ -68,6 +68,10 @@ ASSUMPTIONS = [
     "check_valid='shallow' tasks are generated only in workflows where no body stats a file (shallow validity skips "
     "intermediate values by design; the theorem has the same hypothesis: WorldFree or no shallow task)",
     "bodies observe the file system only through File(path) objects that they pass on (no hidden reads): BodyOk",
+    "container arguments (oracle only; the Lean model has no container values): main(arg) hands a dict / list / tuple (nested up to two "
+    "levels, str and int leaves, no sets) to tasks, positionally and as a keyword, whose result is the structure's text in iteration "
+    "order, its first key/element, its values; between executions only the key order of a dict (at any depth), the order of a "
+    "list, or list <-> tuple changes. A container argument's value INCLUDES these: a dict is an association LIST",
     "file-producing workflows (oracle only, not in the Lean model): lanes head(publish(src, dest)) with the destination File passed "
     "as a task argument (pre-hashed), constructed inside the task, written through File.open, staged through StagingFile, or "
     "copied twice; between executions sources are rewritten/restored, outputs deleted (clean output directory) or overwritten; "
@@ -1051,15 +1055,160 @@ def prod_corpus():
     }
 
 
+# =========================================================================================== container arguments
+# (oracle only: the Lean model's values are ints, Files and look-alike primitives.  A container argument's VALUE includes the
+#  order of a dict's keys, the order of a list, and whether it is a list or a tuple - a task can observe all three - so two
+#  arguments that differ only in that are different arguments and must not share a cache entry)
+SIG_CONTAINER = "C02-stale-result-after-container-argument-change"
+
+
+def build_arg(a):
+    """spec -> python value: int | str | ["dict", [[k, v] ...]] | ["list", [...]] | ["tuple", [...]]"""
+    if isinstance(a, (int, str)):
+        return a
+    if a[0] == "dict":
+        return {k: build_arg(v) for k, v in a[1]}
+    if a[0] == "list":
+        return [build_arg(v) for v in a[1]]
+    return tuple(build_arg(v) for v in a[1])
+
+
+class ArgHist:
+    """steps: list of argument specs; every execution runs main(arg) = [show(arg), showk(1, d=arg), first(arg), deep(...)]"""
+
+    def __init__(self, steps):
+        self.steps = steps
+
+    def to_json(self):
+        return dict(kind="container-arguments", steps=self.steps)
+
+
+def variants(rng, a):
+    """the same content with something observable changed: key order, element order, list <-> tuple, at any depth"""
+    if isinstance(a, (int, str)):
+        return a
+    kind, items = a[0], list(a[1])
+    r = rng.random()
+    if kind == "dict":
+        if r < 0.6 and len(items) > 1:
+            rng.shuffle(items)
+        elif r < 0.75:
+            items = sorted(items, key=lambda kv: kv[0])
+        return ["dict", [[k, variants(rng, v) if rng.random() < 0.4 else v] for k, v in items]]
+    if r < 0.35 and len(items) > 1:
+        rng.shuffle(items)
+    if r > 0.8:
+        kind = "tuple" if kind == "list" else "list"
+    return [kind, [variants(rng, v) if rng.random() < 0.4 else v for v in items]]
+
+
+def gen_arghist(rng, nsteps):
+    keys = rng.sample(["sample", "lane", "run", "a", "b", "z"], rng.choice([2, 3, 3, 4]))
+    def val(depth):
+        r = rng.random()
+        if depth <= 0 or r < 0.5:
+            return rng.choice([1, 2, 3, "s1", "x"])
+        if r < 0.75:
+            return ["dict", [[k, val(depth - 1)] for k in rng.sample(["p", "q", "c"], 2)]]
+        return [rng.choice(["list", "tuple"]), [rng.choice([1, 2, 3]) for _ in range(rng.choice([2, 3]))]]
+    base = ["dict", [[k, val(1)] for k in keys]] if rng.random() < 0.75 else [rng.choice(["list", "tuple"]), [val(1) for _ in range(3)]]
+    steps = [base]
+    for _ in range(nsteps - 1):
+        steps.append(variants(rng, rng.choice(steps)))
+    return ArgHist(steps)
+
+
+def run_arghist(env, ah):
+    import ctl_sched
+    env.nhist += 1
+    ns = "c02a%d" % env.nhist
+    d = os.path.join(env.dir, ns)
+    os.makedirs(d)
+    text = ["from redun import task", "",
+            "def _shape(v):",
+            "    if isinstance(v, dict):",
+            "        return '{' + ','.join('%s:%s' % (k, _shape(x)) for k, x in v.items()) + '}'",
+            "    if isinstance(v, list):", "        return '[' + ','.join(_shape(x) for x in v) + ']'",
+            "    if isinstance(v, tuple):", "        return '(' + ','.join(_shape(x) for x in v) + ')'",
+            "    return repr(v)", ""]
+    for name, params, body in [
+            ("show", "d", "return _shape(d)"),                                 # positional, iteration order
+            ("showk", "x, d=None", "return _shape(d)"),                        # keyword
+            ("first", "d", "return _shape(next(iter(d)))"),                    # first key / first element
+            ("inner", "d", "return [_shape(v) for v in (d.values() if isinstance(d, dict) else d)]")]:
+        text += ['@task(name="%s", namespace="%s", version="1")' % (name, ns), "def %s(%s):" % (name, params), "    " + body, ""]
+    text += ['@task(name="main", namespace="%s", version="1")' % ns, "def main(arg):",
+             "    return [show(arg), showk(1, d=arg), first(arg), inner(arg)]", ""]
+    path = os.path.join(d, ns + "_mod.py")
+    with open(path, "w") as f:
+        f.write("\n".join(text))
+    spec = importlib.util.spec_from_file_location(ns + "_mod", path)
+    mod = importlib.util.module_from_spec(spec)
+    sys.modules[ns + "_mod"] = mod
+    spec.loader.exec_module(mod)
+    db_uri = env.empty_db(os.path.join(d, "redun.db"))
+
+    def execute(uri, arg):
+        ctl = make_ctl()
+        sched = ctl_sched.make_scheduler(ctl, db_uri=uri)
+        with inherit_priority(ctl):
+            status, payload = ctl.run(sched, mod.main(build_arg(arg)))
+        close_sched(sched)
+        return ("ok:%r" % (payload,)) if status == "ok" else "%s:%s" % (status, type(payload).__name__ if status == "err" else payload)
+
+    rows = []
+    for k, arg in enumerate(ah.steps):
+        real = execute(db_uri, arg)
+        fresh_path = os.path.join(d, "fresh.db")
+        fresh = execute(env.empty_db(fresh_path), arg)
+        os.remove(fresh_path)
+        rows.append(dict(step=k, arg=arg, real=real, fresh=fresh))
+    shutil.rmtree(d, ignore_errors=True)
+    return rows
+
+
+def check_arghist(ctx, env, ah, label):
+    rows = run_arghist(env, ah)
+    case = dict(label=label, container_arguments=ah.to_json())
+    ctx.case(key=json.dumps(ah.to_json(), sort_keys=True), sample=dict(label=label, args=ah.steps[:3], results=[r["real"][:80] for r in rows][:3]),
+             steps=len(rows), source="container-arguments")
+    for r in rows:
+        ctx.count("outcome", r["real"].split(":")[0])
+        ctx.count("container_argument", r["arg"][0] if isinstance(r["arg"], list) else "scalar")
+        if r["real"] != r["fresh"]:
+            ctx.violation(SIG_CONTAINER, "execution %d (argument %s) returns %s on the shared backend, %s on a fresh backend"
+                          % (r["step"], json.dumps(r["arg"]), r["real"], r["fresh"]), case=dict(case, step=r["step"]),
+                          expected=r["fresh"], actual=r["real"], kind="history")
+    return rows
+
+
+def arg_corpus():
+    D = lambda *kv: ["dict", [list(x) for x in kv]]       # noqa: E731
+    return {
+        "dict-key-order": ArgHist([D(("sample", "s1"), ("lane", 3)), D(("lane", 3), ("sample", "s1")), D(("sample", "s1"), ("lane", 3))]),
+        "nested-and-sequences": ArgHist([D(("b", ["list", [1, 2, 3]]), ("a", D(("q", 1), ("p", 2)))),
+                                         D(("a", D(("q", 1), ("p", 2))), ("b", ["list", [1, 2, 3]])),
+                                         D(("a", D(("p", 2), ("q", 1))), ("b", ["tuple", [1, 2, 3]])),
+                                         D(("a", D(("p", 2), ("q", 1))), ("b", ["list", [3, 2, 1]])),
+                                         ["list", [1, 2, 3]], ["tuple", [1, 2, 3]], ["list", [3, 2, 1]]]),
+    }
+
+
 # =========================================================================================== run
+_CPU0 = [0.0]
+
+
 def cpu():
+    """CPU seconds of this process since run() started (imports are a fixed cost, 2-10 s depending on the load)"""
     import time
-    return time.process_time()
+    return time.process_time() - _CPU0[0]
 
 
 def run(ctx):
+    import time
     import ctl_sched
     ctl_sched.quiet()
+    _CPU0[0] = time.process_time()
     env = Env()
     try:
         flags = probe_flags(ctx, env)
@@ -1067,6 +1216,8 @@ def run(ctx):
         quick = ctx.tier == "quick"
         for name, ph in prod_corpus().items():
             check_prodhist(ctx, env, ph, "corpus:" + name)
+        for name, ah in arg_corpus().items():
+            check_arghist(ctx, env, ah, "corpus:" + name)
         cases = [("corpus:" + name, h, dict(source="corpus")) for name, h in corpus().items()]
         nsteps_max = 6 if ctx.tier == "quick" else 10
         rng = ctx.rng
@@ -1083,9 +1234,12 @@ def run(ctx):
             done.append((label, h, tags, run_real(env, h)))
             if k % 6 == 5:
                 nprod += 1
-                check_prodhist(ctx, env, gen_prodhist(rng, rng.randrange(2, 5 if quick else 7)), "prod%d" % nprod)
+                if nprod % 2:
+                    check_prodhist(ctx, env, gen_prodhist(rng, rng.randrange(2, 5 if quick else 7)), "prod%d" % nprod)
+                else:
+                    check_arghist(ctx, env, gen_arghist(rng, rng.randrange(3, 6 if quick else 9)), "args%d" % nprod)
             if cpu() > cpu_budget or ctx.elapsed() > wall_budget:
-                ctx.note("stopped after %d of %d histories + %d file-producing histories (budget: %.0fs cpu, %.0fs wall)"
+                ctx.note("stopped after %d of %d histories + %d file-producing / container-argument histories (budget: %.0fs cpu, %.0fs wall)"
                          % (k + 1, len(cases), nprod, cpu(), ctx.elapsed()))
                 break
         replies = ctx.model("C02", [q for _, h, _, _ in done for q in requests(h, flags)])
@@ -1102,6 +1256,10 @@ def replay(ctx, case):
     env = Env()
     try:
         c = case.get("case") or {}
+        if "container_arguments" in c:
+            for r in check_arghist(ctx, env, ArgHist(c["container_arguments"]["steps"]), "replay"):
+                print("step", r["step"], json.dumps(r["arg"]), "real", r["real"], "fresh", r["fresh"])
+            return
         if "producers" in c:
             for r in check_prodhist(ctx, env, ProdHist.from_json(c["producers"]), "replay"):
                 print("step", r["step"], "real", r["real"], "fresh", r["fresh"])
